@@ -13,7 +13,8 @@ from rules.utilfn import r04_9
 from rules.utilfn import r16_6
 from rules.utilfn import r04_10
 from rules.utilfn import r03_7
-RULES = [('R04.1', r04_1), ('R04.2', r04_2), ('R04.3', r01_4), ('R04.4', r04_4), ('R04.5w', r04_5_writer), ('R04.5r', r04_5_reader), ('R04.5i', r04_5_iter), ('R04.5d', r04_5_dfa), ('R04.6', r20_3), ('R20.2', r20_2), ('R16.2', r16_2), ('R16.3', r16_3), ('R03.2', r03_2), ('R09.6', r09_6), ('R13.1', r13_1), ('R20.5', r20_5), ('R13.5', r13_5), ('R04.7', r04_7), ('R04.8', r04_8), ('R04.9', r04_9), ('R16.6', r16_6), ('R04.10', r04_10), ('R03.7', r03_7)]
+from rules.utilfn import r04_11
+RULES = [('R04.1', r04_1), ('R04.2', r04_2), ('R04.3', r01_4), ('R04.4', r04_4), ('R04.5w', r04_5_writer), ('R04.5r', r04_5_reader), ('R04.5i', r04_5_iter), ('R04.5d', r04_5_dfa), ('R04.6', r20_3), ('R20.2', r20_2), ('R16.2', r16_2), ('R16.3', r16_3), ('R03.2', r03_2), ('R09.6', r09_6), ('R13.1', r13_1), ('R20.5', r20_5), ('R13.5', r13_5), ('R04.7', r04_7), ('R04.8', r04_8), ('R04.9', r04_9), ('R16.6', r16_6), ('R04.10', r04_10), ('R03.7', r03_7), ('R04.11', r04_11)]
 EXPLANATION = """R04.1 in `impl Automaton for &A` and `impl Automaton for Arc<dyn AcAutomaton>` every method forwards to its namesake on the
 inner automaton with the parameters in order (32 methods; the Arc impl's try_find / try_find_overlapping go to the shared drivers).
 R04.2 the four id predicates of the three automata are equivalent, under every relative ordering of (sid, max_match_id, max_special_id,
